@@ -95,7 +95,9 @@ def value_of(ty, pre, ctr, first_word_override=None):
     if m:
         return "Some(%s)" % value_of(m.group(1), pre, ctr)
     if ty == "impl Into<String>":
-        return "\"s\""
+        # multi-byte characters: byte length and character count differ, every length mod 4 occurs over the methods
+        ctr[0] += 1
+        return [r'"s"', r'"\u{e9}\u{e9}\u{e9}"', r'"\u{65e5}\u{672c}\u{8a9e}"', r'"ab\u{e9}\u{e9}\u{e9}\u{e9}\u{e9}\u{e9}"', r'"x\u{1f600}y"'][ctr[0] % 5]
     m = re.match(r"impl IntoIterator<Item = (.*)>$", ty)
     if m:
         it = m.group(1).strip()
